@@ -1,7 +1,7 @@
 """C08 — point decoders are total, strict and build-profile independent."""
 from core import report
 from core.sm9 import Repo
-from . import shared, conv2 as convert
+from . import shared, conv2 as convert, profile
 
 SPEC = {
     "crate::G1::from_slice": {"lens": {64}, "prefix": None},
@@ -47,6 +47,7 @@ def run(ctx):
         r.check(not diff, "C08:profile-dependent:%s" % path, "%s behaves differently in dev and release for %d abstract inputs, e.g. (len, first byte) = %s" % (path, len(diff), diff[:4]),
                 fn=path, sample={"decoder": path, "points_compared": len(set(a) | set(b))})
     rules.append(r.finish())
+    rules.append(profile.rule_nopanic_core("C08", per_cfg["rel"][0], list(SPEC), convert.make_conv))
     return report.emit(
         "C08", ctx.tier, ctx.seed, rules, ctx.started,
         "Byte-provenance abstract execution of the seven decoder entry points over the full abstract domain (length partition split at every compared constant x all 256 "
